@@ -913,6 +913,37 @@ def f_eq_notimplemented():
     return a == b, b == a, a == c, a != b, a == 1, a != 1, b == _StrictSub(1), a in [b], a in [c], len({a, b}), len({a, c})
 
 
+@dataclass
+class _DcEq:
+    a: int
+
+
+@dataclass(frozen=True)
+class _DcFrozen:
+    a: int
+
+
+@dataclass(eq=False)
+class _DcId:
+    a: int
+
+
+class _EqOnly:
+    def __eq__(self, other):
+        return True
+
+
+def f_hashability():
+    out = []
+    for mk_ in (lambda: _DcEq(1), lambda: _DcFrozen(1), lambda: _DcId(1), lambda: _EqOnly(), lambda: _Strict(2)):
+        try:
+            hash(mk_())
+            out.append('hashable')
+        except TypeError:
+            out.append('unhashable')
+    return out, hash(_DcFrozen(3)) == hash(_DcFrozen(3)), len({_DcFrozen(1), _DcFrozen(1)})
+
+
 def f_str_bits():
     s = bin(0b101101)[2:]
     return s, s.zfill(8), int(s[::-1], 2), s.count('1'), s.rfind('1'), s[:3] + '0' * 2, '{:08b}'.format(5), f'{5:08b}'[-3:], ''.join('1' if c == '0' else '0' for c in s)
